@@ -78,10 +78,13 @@ def nodeBytes (firstNum : Nat) (e : DEnt) : Bytes :=
     ++ le16 (e.typ % 65536) ++ le16 ((e.name.length - 1) % 65536)
 
 /-- `sqfs_dir_node_t` + name as appended at dir_writer.c:319-325 -/
-def encodeEnt (firstNum : Nat) (e : DEnt) : Bytes := nodeBytes firstNum e ++ e.name
+def encodeEnt (firstNum : Nat) (e : DEnt) : Bytes :=
+  le16 (e.inodeRef % 65536) ++ le16 ((e.inodeNum + 4294967296 - firstNum % 4294967296) % 65536)
+    ++ le16 (e.typ % 65536) ++ le16 ((e.name.length - 1) % 65536) ++ e.name
 
 def encodeRun (r : Run) : Bytes :=
-  headerBytes r.ents.length r.startBlock r.inodeNumber ++ (r.ents.map (encodeEnt r.inodeNumber)).flatten
+  le32 ((r.ents.length - 1) % 4294967296) ++ le32 r.startBlock ++ le32 r.inodeNumber
+    ++ (r.ents.map (encodeEnt r.inodeNumber)).flatten
 
 /-- the separate `sqfs_meta_writer_append` calls one header + run makes: the header (:267), then per entry the
 record (:319) and the name (:324) -/
@@ -99,7 +102,7 @@ The outer loop of `sqfs_dir_writer_end` (dir_writer.c:300-332) on the meta write
 `writer->dir_size`.  Fuel = number of entries (+1): every iteration consumes at least one.
 Returns the runs (header fields, covered entries, the index record `add_header` keeps) and the meta writer state.
 -/
-def dirEndGo (cmp : Codec) : (fuel : Nat) → St → (dirSize : Nat) → List DEnt → List Run × St
+def dirEndGoM (cmp : Codec) : (fuel : Nat) → St → (dirSize : Nat) → List DEnt → List Run × St
   | 0, st, _, _ => ([], st)
   | _, st, _, [] => ([], st)
   | f + 1, st, dirSize, first :: rest =>
@@ -107,11 +110,34 @@ def dirEndGo (cmp : Codec) : (fuel : Nat) → St → (dirSize : Nat) → List DE
     let run := (first :: rest).take count
     let r : Run := ⟨run, (first.inodeRef >>> 16) % 4294967296, first.inodeNum, dirSize, st.blockOffset⟩   -- :304 add_header
     let st' := (runChunks r).foldl (append cmp) st
-    let next := dirEndGo cmp f st' (dirSize + runBytes run) ((first :: rest).drop count)
+    let next := dirEndGoM cmp f st' (dirSize + runBytes run) ((first :: rest).drop count)
     (r :: next.1, next.2)
 
-def dirEnd (cmp : Codec) (st : St) (ents : List DEnt) : List Run × St :=
-  dirEndGo cmp (ents.length + 1) st 0 ents
+def dirEndM (cmp : Codec) (st : St) (ents : List DEnt) : List Run × St :=
+  dirEndGoM cmp (ents.length + 1) st 0 ents
+
+/-! #### the first, coarser model of the same loop (kept for its users: C01 `EncDir`)
+
+The meta writer is represented only by its position `(block_offset, offset)`; `blkCost` is what one flushed 8 KiB block
+adds to `block_offset` (stored size + 2), i.e. a compressor under which every block has the same stored size — 8194 for
+one that never shrinks.  `Sqfs.DirWriter.dirEnd_eq_dirEndM` shows that this is `dirEndM` for such a codec. -/
+
+/-- position of the meta writer after appending `n` bytes (meta_writer.c: a full block is flushed at once) -/
+def advance (blkCost blk off n : Nat) : Nat × Nat :=
+  (blk + (off + n) / metaBlockSize * blkCost, (off + n) % metaBlockSize)
+
+def dirEndGo (blkCost : Nat) : (fuel : Nat) → (blk off dirSize : Nat) → List DEnt → List Run
+  | 0, _, _, _, _ => []
+  | _, _, _, _, [] => []
+  | f + 1, blk, off, dirSize, first :: rest =>
+    let count := conseqCount off (first :: rest)
+    let run := (first :: rest).take count
+    let (blk', off') := advance blkCost blk off (runBytes run)
+    ⟨run, (first.inodeRef >>> 16) % 4294967296, first.inodeNum, dirSize, blk⟩
+      :: dirEndGo blkCost f blk' off' (dirSize + runBytes run) ((first :: rest).drop count)
+
+def dirEnd (blkCost blk off : Nat) (ents : List DEnt) : List Run :=
+  dirEndGo blkCost (ents.length + 1) blk off 0 ents
 
 def dirSizeOf (runs : List Run) : Nat := (runs.map (fun r => runBytes r.ents)).sum
 
